@@ -244,3 +244,111 @@ func genLeftover(cfg simkit.RunConfig, backend string) *Scenario {
 	sc.Knobs.LongTTL = true
 	return sc
 }
+
+// genReads: mode "reads" (C05). Writers of every kind, some of them crashed at a
+// random point of their work (leftover locks: pending, committed primary with
+// unresolved secondaries, rolled back, pessimistic), topology changes; readers on a
+// separate client read through all four paths at timestamps around every
+// start/commit ts, while the writers run, after they ended, and after recovery.
+func genReads(cfg simkit.RunConfig, backend string) *Scenario {
+	r := simkit.Rand(cfg.Seed, "gen")
+	sc := &Scenario{Backend: backend, Victim: -1}
+	sc.Stores, sc.Splits = genLayout(r)
+	sc.Clients = 3 // clients 0,1 write (and may crash); client 2 reads
+	keys := keyPool
+	n := 2 + r.Intn(4)
+	o := genOpts{maxTxns: 6, pessRate: 0.4, backend: backend, boundedRiter: true}
+	sc.Net.Plan = map[string]simkit.Fate{}
+	for i := 0; i < n; i++ {
+		p := genTxn(r, i, 2, o, keys)
+		sc.Txns = append(sc.Txns, p)
+	}
+	// crash writers: one client dies at a random RPC of one of its transactions' Commit
+	// (or, for pessimistic ones, leaves pessimistic locks by dying before it)
+	for c := 0; c < 2; c++ {
+		if r.Intn(3) == 0 {
+			continue
+		}
+		var mine []int
+		for _, t := range sc.Txns {
+			if t.Client == c {
+				mine = append(mine, t.ID)
+			}
+		}
+		if len(mine) == 0 {
+			continue
+		}
+		v := mine[r.Intn(len(mine))]
+		f := simkit.CrashBefore
+		if r.Intn(2) == 0 {
+			f = simkit.CrashAfter
+		}
+		sc.Net.Plan[fmt.Sprintf("ord:%d:end%d+%d", c, v, r.Intn(6))] = f
+	}
+	sc.Net.JitterUs = []int{0, 500, 3000, 20000}[r.Intn(4)]
+	ne := r.Intn(5)
+	for i := 0; i < ne; i++ {
+		sc.Topo = append(sc.Topo, TopoEvent{AtMs: r.Intn(200), Kind: pick(r, []string{"split", "leader", "merge"}), Key: pick(r, []string{"a", "b", "c", "d", "e", "f", "b\x00"})})
+	}
+	if r.Intn(3) == 0 {
+		sc.Net.Random = true
+		sc.Net.Rate = []float64{0.03, 0.08}[r.Intn(2)]
+		sc.Net.Kinds = append([]simkit.Fate(nil), regionOnlyFaults...)
+	}
+	if r.Intn(3) == 0 {
+		sc.Knobs.CommitBatchSize = 1
+	}
+	if r.Intn(2) == 0 {
+		sc.Knobs.ManagedTTLMs = 300 + r.Intn(3000)
+	}
+	sc.Reads = &ReadPlan{Seed: r.Int63(), Early: 2 + r.Intn(4), Late: 2 + r.Intn(4), Final: 2 + r.Intn(3),
+		Batch: []int{2, 3, 5, 256}[r.Intn(4)], KeyOnly: r.Intn(4) == 0, Unbounded: r.Intn(8) == 0}
+	return sc
+}
+
+// genRYW: mode "ryw" (C07): committed data, then 1-2 long transactions mixing reads of every
+// kind with sets, deletes and savepoint steps, while other transactions commit concurrently
+// and the topology changes (the snapshot half of the merged view is a lazily fetched remote scanner).
+func genRYW(cfg simkit.RunConfig, backend string) *Scenario {
+	r := simkit.Rand(cfg.Seed, "gen")
+	sc := &Scenario{Backend: backend, Victim: -1}
+	sc.Stores, sc.Splits = genLayout(r)
+	sc.Clients = 2
+	keys := keyPool
+	id := 0
+	pre := TxnProg{ID: id, Client: 1, End: "commit"}
+	for _, k := range subset(r, keys, 2, 6) {
+		pre.Ops = append(pre.Ops, Op{Kind: "set", Keys: []string{k}, Val: "p." + k})
+	}
+	sc.Txns = append(sc.Txns, pre)
+	id++
+	o := genOpts{maxTxns: 4, pessRate: 0.3, backend: backend, boundedRiter: true, staging: true, maxOps: 14}
+	nmain := 1 + r.Intn(2)
+	for i := 0; i < nmain; i++ {
+		p := genTxn(r, id, 1, o, keys)
+		p.DelayMs = 40 + r.Intn(30)
+		sc.Txns = append(sc.Txns, p)
+		id++
+	}
+	nbg := r.Intn(3)
+	ob := genOpts{maxTxns: 4, pessRate: 0.3, backend: backend, boundedRiter: true}
+	for i := 0; i < nbg; i++ {
+		p := genTxn(r, id, 2, ob, keys)
+		p.Client = 1
+		p.DelayMs = 30 + r.Intn(80)
+		sc.Txns = append(sc.Txns, p)
+		id++
+	}
+	sc.Net.JitterUs = []int{0, 500, 3000}[r.Intn(3)]
+	if r.Intn(2) == 0 {
+		sc.Net.Random = true
+		sc.Net.Rate = []float64{0.03, 0.1}[r.Intn(2)]
+		sc.Net.Kinds = append([]simkit.Fate(nil), regionOnlyFaults...)
+	}
+	ne := r.Intn(4)
+	for i := 0; i < ne; i++ {
+		sc.Topo = append(sc.Topo, TopoEvent{AtMs: 30 + r.Intn(100), Kind: pick(r, []string{"split", "leader", "merge"}), Key: pick(r, keys)})
+	}
+	sc.Knobs.ScanBatch = []int{0, 2, 3, 5}[r.Intn(4)]
+	return sc
+}
